@@ -232,17 +232,21 @@ func (conn *Conn) send(call *Call) {
 		}
 		conn.pending[seq] = call
 	}
+	// Once the call is registered and the lock released, the reader may
+	// complete it (a response, or the end of the connection) and its owner
+	// may recycle it: everything the request needs is read before that.
+	upgrade, serviceMethod, args := call.upgrade, call.ServiceMethod, call.Args
 	conn.mutex.Unlock()
 	ctx := Context{}
 	ctx.Seq = seq
-	ctx.upgrade = call.upgrade
+	ctx.upgrade = upgrade
 	var upgradeBuffer []byte
-	if !call.upgrade.IsZero() {
+	if !upgrade.IsZero() {
 		upgradeBuffer = getUpgradeBuffer()
-		ctx.Upgrade, _ = call.upgrade.Marshal(upgradeBuffer)
+		ctx.Upgrade, _ = upgrade.Marshal(upgradeBuffer)
 	}
-	ctx.ServiceMethod = call.ServiceMethod
-	err := conn.codec.WriteRequest(&ctx, call.Args)
+	ctx.ServiceMethod = serviceMethod
+	err := conn.codec.WriteRequest(&ctx, args)
 	if err != nil {
 		conn.mutex.Lock()
 		registered := conn.pending[seq] == call
